@@ -84,6 +84,10 @@ def run(ctx):
     rng = ctx.rng("c02")
     p = profile()
     maxd = ctx.pick(4, 6)
+    for fname in sorted(DJANGO_FUNCS):
+        if ctx.mine(sorted(DJANGO_FUNCS).index(fname)):
+            SC.judge(ctx, scalar.simple_filter_for(rng, p, fname), rng, select,
+                     findings.django_semantic_triggers, "coverage", cap=200, extra_case=case_extra, profile=p)
     for i in range(ctx.pick(900, 30000)):
         if ctx.out_of_time():
             break
